@@ -34,6 +34,7 @@ MODES = (
     "alloc",          # plain message: number allocated from the session counter
     "possdup_n",      # PossDupFlag=N explicitly, no number carried: allocate
     "possdup_n_num",  # PossDupFlag=N and a stale 34 in the message: allocate
+    "forward",        # a message decoded from ANOTHER session is sent on: it carries foreign 49 / 56 / 52; allocate
     "possdup",        # PossDupFlag=Y + carried 34: keep
     "seqreset",       # SequenceReset + carried 34: keep
     "raw",            # raw_seq_num=True + carried 34: keep
@@ -41,7 +42,7 @@ MODES = (
     "err_seqreset",   # SequenceReset, nothing carried
     "err_raw",        # raw_seq_num=True, nothing carried
 )
-ALLOC_MODES = ("alloc", "possdup_n", "possdup_n_num")
+ALLOC_MODES = ("alloc", "possdup_n", "possdup_n_num", "forward")
 KEEP_MODES = ("possdup", "seqreset", "raw")
 ERR_MODES = ("err_possdup", "err_seqreset", "err_raw")
 
@@ -306,13 +307,15 @@ def mode_fields(mode, num, pos):
         own = [("43", "Y")]
     elif mode in ("possdup_n", "possdup_n_num"):
         own = [("43", "N")]
+    elif mode == "forward":
+        own = [("49", "FWDSND"), ("56", "FWDTGT"), ("52", "20200101-00:00:00.000")]
     else:  # seqreset, raw
         own = []
     if pos == "head":
         return n + own, []
     if pos == "tail":
         return [], n + own
-    extra = [("122", "20240101-00:00:00.000")] if own else []
+    extra = [("122", "20240101-00:00:00.000")] if own and mode != "forward" else []
     return n, own + extra
 
 
@@ -1093,6 +1096,10 @@ def _mode_specs():
                 yield spec_of(b, mode="possdup_n", ctr=c, pos=pos)
                 for n in CARRIED:
                     yield spec_of(b, mode="possdup_n_num", ctr=c, num=n, pos=pos)
+    for b in bodies:
+        for c in (1, 10):
+            for pos in ("head", "tail"):
+                yield spec_of(b, mode="forward", ctr=c, pos=pos)
     for b in bodies:
         for c in (1, 10):
             for n in CARRIED:
